@@ -596,7 +596,15 @@ func (l *IPFSLog) Join(otherLog iface.IPFSLog, size int) (iface.IPFSLog, error) 
 		}
 	}
 
-	mergedHeads := entry.FindHeads(l.heads.Merge(otherLog.RawHeads()))
+	// only entries that were admitted to the log can be heads, or hide one
+	otherHeads := entry.NewOrderedMap()
+	for _, e := range otherLog.RawHeads().Slice() {
+		if _, ok := l.Entries.Get(e.GetHash().String()); ok {
+			otherHeads.Set(e.GetHash().String(), e)
+		}
+	}
+
+	mergedHeads := entry.FindHeads(l.heads.Merge(otherHeads))
 
 	for idx, e := range mergedHeads {
 		// notReferencedByNewItems
